@@ -173,7 +173,22 @@ def run_case(ctx, name, params):
             else:
                 b = [x + (r.choice(deltas_for(x)) * r.choice([-1, 1]) if r.random() < 0.4 else 0) for x in a]
             A = r.choice(cls)(a)
-            B = r.choice(cls)(b)
+            c2 = r.random()
+            if c2 < 0.7:
+                B = r.choice(cls)(b)
+            else:
+                # provenance: the second point is a clone of the first (deepcopy, pickle round trip, dictionary round trip as
+                # the data stores do) whose vector was then set -- clones carry the same id, and are design points like any other
+                import copy as _copy
+                import pickle as _pickle
+                if c2 < 0.8:
+                    B = _copy.deepcopy(A)
+                elif c2 < 0.9:
+                    B = _pickle.loads(_pickle.dumps(A))
+                else:
+                    B = type(A).from_dict(A.to_dict())
+                B.vector = list(b)
+                ctx.count("pairs_with_a_cloned_point")
             judge_pair(ctx, A, B, "random")
             ctx.count("cases")
             ctx.sample({"a": a, "b": b, "equal_expected": expect_equal(a, b)}, "random_pair")
